@@ -10,7 +10,7 @@ task starts after stop() returned.
 from checks import _pool as P
 
 PROP = "C09"
-ALL = sorted(P.CURATED)
+ALL = sorted(n for n in P.CURATED if "SystemExit" not in n)  # those two judge only termination (C11)
 HEAVY = ("P19-chain-with-second-submitter", "P22-backlog-then-chain")
 
 
